@@ -28,7 +28,7 @@ type Op struct {
 	Kind      string     `json:"op"`
 	Sub       string     `json:"sub,omitempty"`
 	Variant   string     `json:"variant,omitempty"`
-	TooBig    int        `json:"too_big,omitempty"` // publish: the value of message TooBig-1 of the batch is replaced by one byte more than the format's 64 MiB bound: the Publish must fail and leave nothing behind
+	TooBig    int        `json:"too_big,omitempty"`      // publish: the value of message TooBig-1 of the batch is replaced by one byte more than the format's 64 MiB bound: the Publish must fail and leave nothing behind
 	CrashDel  []int64    `json:"crash_delete,omitempty"` // reopen: the directory is replaced by its image taken inside a Delete of these offsets (after the rewrite, before the swap)
 	StopAfter int        `json:"stop_after,omitempty"`   // multi variants: the backoff fails on its n-th call (0 = never)
 	Msgs      []PubMsg   `json:"msgs,omitempty"`
@@ -229,7 +229,8 @@ type GenState struct {
 	timeMode string
 	lastT    int64
 	wallBase int64
-	big      bool // a few histories keep everything in one huge segment (hundreds of messages)
+	big      bool     // a few histories keep everything in one huge segment (hundreds of messages)
+	plan     []string // op kinds queued by a chain (C20)
 }
 
 const baseTime = int64(1_700_000_000_000_000)
@@ -623,6 +624,35 @@ func (g *GenState) genOp(h *Hist) Op {
 		kind = "publish"
 	}
 	lay := layoutOf(h.dir)
+	// C20: chains "backup, publish(es), reopen that removes index files and is not followed by a
+	// read, backup again": the repeated backup meets segments that changed under their old name and
+	// whose index file is missing in the source but present in the target
+	if g.prof.W["backup"] > 0 {
+		if len(g.plan) == 0 && len(h.ops) > 0 && h.ops[len(h.ops)-1].Kind == "backup" && r.Chance(0.35) {
+			g.plan = []string{"publish", "publish", "reopen-noindex", "backup"}
+			if r.Bool() {
+				g.plan = g.plan[1:]
+			}
+		}
+		if len(g.plan) > 0 {
+			kind, g.plan = g.plan[0], g.plan[1:]
+			if kind == "reopen-noindex" {
+				o := g.genOpenOpts(h.cfg, h.everNonDec)
+				o.Eager = false
+				op := Op{Kind: "reopen", Opts: &o, Note: "no-observe"}
+				if r.Bool() {
+					op.RemoveAll = true
+				} else {
+					for _, b := range lay.Bases {
+						if r.Bool() {
+							op.RemoveIdx = append(op.RemoveIdx, b)
+						}
+					}
+				}
+				return op
+			}
+		}
+	}
 	switch kind {
 	case "publish":
 		return g.genPublish()
